@@ -500,6 +500,90 @@ func ruleSkipRange(p *Prog, r *RuleResult) {
 		}
 		return a.s.isCurID(v)
 	}
+	// the bounds may reach the task through fields of the task literal: then the stored values are followed
+	// into the function that fills the literal (parameters of a builder helper replaced by the call's arguments)
+	inits := map[*types.Var][]ssa.Value{}
+	builder, bcall := taskBuilder(p, a.s)
+	resolve := func(v ssa.Value) ssa.Value {
+		if pr, ok := v.(*ssa.Parameter); ok && builder != a.s.parent && bcall != nil {
+			for i, q := range builder.Params {
+				if q == pr && i < len(bcall.Common().Args) {
+					return bcall.Common().Args[i]
+				}
+			}
+		}
+		return v
+	}
+	eachInstr(builder, func(i ssa.Instruction) {
+		if sto, ok := i.(*ssa.Store); ok {
+			if fa, ok := sto.Addr.(*ssa.FieldAddr); ok && namedOf(fa.X.Type()) == a.s.taskT {
+				fv := fieldVarOfAddr(fa)
+				inits[fv] = append(inits[fv], sto.Val)
+			}
+		}
+	})
+	// boundOrigin: the context key a compared value comes from, and whether it was narrowed on the way
+	var boundOrigin func(v ssa.Value, d int) (string, bool, bool)
+	boundOrigin = func(v ssa.Value, d int) (string, bool, bool) {
+		if d > 10 || v == nil {
+			return "", false, false
+		}
+		v = resolve(v)
+		switch x := v.(type) {
+		case *ssa.Convert:
+			k, nar, ok := boundOrigin(x.X, d+1)
+			if ok && typeBits(x.Type()) < typeBits(x.X.Type()) {
+				nar = true
+			}
+			return k, nar, ok
+		case *ssa.Phi:
+			key, nar, any := "", false, false
+			for _, e := range x.Edges {
+				if k, n, ok := boundOrigin(e, d+1); ok {
+					if any && k != key {
+						return "", false, false
+					}
+					key, any = k, true
+					nar = nar || n
+				}
+			}
+			return key, nar, any
+		case *ssa.UnOp:
+			if fv := fieldVarOfLoad(x); fv != nil && fv != a.s.curID && len(inits[fv]) > 0 {
+				key, nar, any := "", false, false
+				for _, iv := range inits[fv] {
+					if k, n, ok := boundOrigin(iv, d+1); ok {
+						if any && k != key {
+							return "", false, false
+						}
+						key, any = k, true
+						nar = nar || n
+					}
+				}
+				return key, nar, any
+			}
+			if al, ok := x.X.(*ssa.Alloc); ok && x.Op == token.MUL {
+				// local cell (captured or address-taken variable): follow its stores
+				key, nar, any := "", false, false
+				for _, ref := range *al.Referrers() {
+					if st, ok := ref.(*ssa.Store); ok && st.Addr == ssa.Value(al) {
+						if k, n, ok := boundOrigin(st.Val, d+1); ok {
+							if any && k != key {
+								return "", false, false
+							}
+							key, any = k, true
+							nar = nar || n
+						}
+					}
+				}
+				return key, nar, any
+			}
+		}
+		if k, ok := ctxKeyOfValue(v, 0); ok {
+			return k, false, true
+		}
+		return "", false, false
+	}
 	for _, b := range f.Blocks {
 		ifi := blockIf(b)
 		if ifi == nil {
@@ -511,17 +595,21 @@ func ruleSkipRange(p *Prog, r *RuleResult) {
 			continue
 		}
 		var key string
+		var narrowed bool
 		op := bo.Op
 		if isID(bo.X) {
-			key, ok = ctxKeyOfValue(bo.Y, 0)
+			key, narrowed, ok = boundOrigin(bo.Y, 0)
 		} else if isID(bo.Y) {
-			key, ok = ctxKeyOfValue(bo.X, 0)
+			key, narrowed, ok = boundOrigin(bo.X, 0)
 			op = mirrorOp(op)
 		} else {
 			continue
 		}
 		if !ok || (key != "from" && key != "to") {
 			continue
+		}
+		if narrowed {
+			r.fail(fmt.Sprintf("%s#range.%s.narrowed", fname, key), p.IPos(ifi), fmt.Sprintf("the bound ctx[%q] is converted to a narrower integer type before it is compared with the block id: a caller's bound of 2^31 or more (\"until the end\" is commonly MaxInt) wraps, and the range test skips or delivers the wrong blocks", key))
 		}
 		// which successor skips?
 		tSucc, fSucc := b.Succs[succFor(pos, true)], b.Succs[succFor(pos, false)]
